@@ -179,6 +179,17 @@ CHECKS = {
    design="4 C15",
    note=COMMON_NOTE + "The keys half is decided by direct checking over the complete finite option space, not by a theorem. Fixed findings F2, F3.",
    technique="Lean 4 proof (fixed-width arithmetic, induction for the tokeniser round trip) + correspondence on the C text + exhaustive option-space check for keys"),
+ "C18": dict(
+   text="Partial. The models of create, parse, storage, MPI and cache generation are pure functions (no state between calls), so history-independence holds of them by "
+        "construction; Lean theorems cover the non-trivial clause: C18_sign_diff_only_sig (two signing runs of the same envelope are F(sig1), F(sig2) for one F: they can "
+        "differ only in the signature bytes) and C18_encrypt_diff_only_iv (two encryption runs publish infos that read identically except for the IV). The property is "
+        "decided by the correspondence over histories: the same operations run each in a fresh interpreter (PYTHONHASHSEED 0/1/2/random, different working directories, "
+        "absolute paths) and all in one interpreter in permuted orders must equal the stateless model on every operation; descriptions whose referenced files have the same "
+        "names but different contents; JSON vs YAML files of one description; create twice on the same mutated description object; signing / encryption twice compared "
+        "outside signature / IV / ciphertext.",
+   design="4 C18",
+   note=COMMON_NOTE + "Histories are sampled permutations (not all interleavings); create_mutation_idempotent of DESIGN.md is checked by execution, not proved.",
+   technique="Lean 4 proof for the sign/encrypt clause + stateless-model correspondence over permuted and fresh-process histories"),
 }
 
 NA_REASON = "check not yet built in this revision (work in progress; DESIGN.md section 4 describes the planned model and theorems)"
